@@ -130,3 +130,11 @@ Theorem C05_input_default_repaired : forall inputs,
           (InputDefaults.visit_repaired inputs) inputs.
 Proof. exact InputDefaults.visit_repaired_spec. Qed.
 Print Assumptions C05_input_default_repaired.
+
+(* the deviation is confined to forward and self references: when every default refers to an
+   input declared before it (or to nothing that is declared) the loop of the code and the
+   repaired loop report the same *)
+Theorem C05_input_default_agrees_when_backward : forall inputs,
+  InputDefaults.backward_only inputs -> InputDefaults.visit [] inputs = InputDefaults.visit_repaired inputs.
+Proof. exact InputDefaults.visit_agrees_when_backward. Qed.
+Print Assumptions C05_input_default_agrees_when_backward.
